@@ -38,59 +38,6 @@ func vCbDelta(ctx *IContext, x int) int { return x + 4 }
 
 var vCbs07 = [4]interface{}{vCbAlpha, vCbBeta, vCbGamma, vCbDelta}
 
-// the symbol lookup of reflect.makeFuncStub is the subject of C10
-//
-//verif:stub github.com/tencent/goom/internal/unexports2.FindFuncByName
-func vStubFindFuncByName(name string) (uintptr, error) {
-	a := verifUintptr("sym." + name)
-	verifAssume(a >= 0x400000)
-	verifAssume(a < 0x40000000)
-	return a, nil
-}
-
-// vSlotOf: index of method name in the interface's method table (as reflect reports it).
-func vSlotOf(t reflect.Type, name string) int {
-	for i := 0; i < t.NumMethod(); i++ {
-		if t.Method(i).Name == name {
-			return i
-		}
-	}
-	return -1
-}
-
-// vDispatch: what calling slot j of the variable at p does: (reached func value, receiver
-// word, whether it lands on notImplement).
-func vDispatch(p unsafe.Pointer, j int, id string) (f interface{}, recv unsafe.Pointer, notImpl bool) {
-	hi := (*hack.Iface)(p)
-	verifAssert(hi.Tab != nil, id+".variable-non-nil")
-	if hi.Tab == nil {
-		return nil, nil, false
-	}
-	fn := hi.Tab.Fun[j]
-	if fn == iface.VerifNotImplementPC() {
-		return nil, hi.Data, true
-	}
-	var m vx86
-	m.ok = true
-	jumped := m.runFrom(uint64(fn))
-	verifAssert(m.ok && jumped, id+".stub-decodes")
-	f = verifFuncAt(uintptr(m.regs[2]))
-	verifAssert(f != nil, id+".stub-reaches-known-func-value")
-	if f != nil {
-		verifAssert(uint64(verifFuncCode(f)) == m.rip, id+".stub-lands-on-its-code")
-	}
-	return f, hi.Data, false
-}
-
-func vCall07(f interface{}, recv unsafe.Pointer, x int) (r int, panicked bool) {
-	defer func() {
-		if e := recover(); e != nil {
-			panicked = true
-		}
-	}()
-	return f.(func(*IContext, int) int)((*IContext)(recv), x), false
-}
-
 // VC_C07_dispatch: any subset of the four methods mocked in any of three orders, through
 // Apply or As+Return: every mocked slot reaches its own replacement with the caller's
 // argument, every other slot reaches notImplement; Reset restores the variable.
